@@ -1,1 +1,35 @@
-// abstract-JSON constructors and projections
+//! layout21raw values -> abstract JSON (canonical forms of DESIGN.md §4), and constructors.
+use layout21raw as raw;
+use raw::{Layers, Shape};
+use serde_json::{json, Map, Value};
+
+pub fn shape_json(s: &Shape) -> Value {
+    match s {
+        Shape::Rect(r) => json!({"k":"rect","pts":[[r.p0.x, r.p0.y],[r.p1.x, r.p1.y]],"width":0}),
+        Shape::Polygon(p) => json!({"k":"polygon","pts":p.points.iter().map(|q| vec![q.x, q.y]).collect::<Vec<_>>(),"width":0}),
+        Shape::Path(p) => json!({"k":"path","pts":p.points.iter().map(|q| vec![q.x, q.y]).collect::<Vec<_>>(),"width":p.width}),
+    }
+}
+fn by_layer_name(m: &std::collections::HashMap<raw::LayerKey, Vec<Shape>>, layers: &Layers) -> Value {
+    let mut o = Map::new();
+    for (k, shapes) in m {
+        let name = layers.get_name(*k).cloned().unwrap_or_else(|| format!("<unnamed {:?}>", layers.get(*k).map(|l| l.layernum)));
+        o.insert(name, Value::Array(shapes.iter().map(shape_json).collect()));
+    }
+    Value::Object(o)
+}
+pub fn abstract_json(a: &raw::Abstract, layers: &Layers) -> Value {
+    json!({"name": a.name, "outline": a.outline.points.iter().map(|q| vec![q.x, q.y]).collect::<Vec<_>>(),
+           "ports": a.ports.iter().map(|p| json!({"net": p.net, "shapes": by_layer_name(&p.shapes, layers)})).collect::<Vec<_>>(),
+           "blockages": by_layer_name(&a.blockages, layers)})
+}
+/// empty TLA+ functions arrive as []: normalise empty arrays in map positions to {}
+pub fn norm_maps(v: &Value) -> Value {
+    match v {
+        Value::Object(o) => Value::Object(o.iter().map(|(k, x)| {
+            let x2 = if (k == "shapes" || k == "blockages") && x.as_array().map(|a| a.is_empty()).unwrap_or(false) { json!({}) } else { norm_maps(x) };
+            (k.clone(), x2) }).collect()),
+        Value::Array(a) => Value::Array(a.iter().map(norm_maps).collect()),
+        x => x.clone(),
+    }
+}
